@@ -210,6 +210,49 @@ def _inline_one(caller, bi, callee):
                                     "orig_call": {"callee": call["callee"], "resolved": call.get("resolved")}}
 
 
+def devirtualise(body):
+    """A call through a function pointer whose only definition (followed through plain copies and the fn-item -> fn-pointer
+    coercion) is one named function is a call of that function: `beats(&a, &b)` with `beats` bound to `PartialOrd::gt` by an
+    inlined helper's parameter."""
+    n = 0
+    defs = {}
+    for bl in body["blocks"]:
+        for st in bl["stmts"]:
+            if st["k"] == "assign" and not st["place"]["p"]:
+                defs.setdefault(st["place"]["l"], []).append(st["rv"])
+        t = bl["term"]
+        if t["k"] == "call" and not t["dest"]["p"]:
+            defs.setdefault(t["dest"]["l"], []).append(None)
+
+    def target(op, depth=0):
+        if depth > 8 or op is None:
+            return None
+        if op.get("k") == "const":
+            return op if "fn" in op else None
+        if op.get("k") not in ("copy", "move") or op.get("p"):
+            return None
+        ds = defs.get(op["l"], [])
+        if len(ds) != 1 or ds[0] is None:
+            return None
+        rv = ds[0]
+        if rv["k"] == "use":
+            return target(rv["op"], depth + 1)
+        if rv["k"] == "cast" and "ReifyFnPointer" in (rv.get("ck") or ""):
+            return target(rv["op"], depth + 1)
+        return None
+
+    for bl in body["blocks"]:
+        t = bl["term"]
+        if t["k"] == "call" and t["callee"] == "<indirect>" and t.get("func"):
+            c = target(t["func"])
+            if c is not None:
+                t["callee"] = c["fn"]
+                t["callee_args"] = c.get("fn_args", [])
+                t["devirtualised"] = True
+                n += 1
+    return n
+
+
 def inline_helpers(bodies, known):
     """bodies: raw body dicts of one crate/config.  Returns {helper def: [callers]}."""
     if known is None:
